@@ -53,9 +53,18 @@ NSG __attribute__((noinline)) void sim_poison_stack_below(void) {
  * thread's fiber manager.  Threads of pure data-structure harnesses have none; give them a dummy one. */
 extern int fiber_mode;
 extern int sim_active;
+extern void sim_register_manager(void* m, size_t size);
 fiber_manager_t* __real_fiber_manager_get(void);
 NSG fiber_manager_t* __wrap_fiber_manager_get(void) {
   fiber_manager_t* m = __real_fiber_manager_get();
+  if (m && fiber_mode) {
+    static __thread int registered;
+    if (!registered) {
+      registered = 1;
+      /* the deferred-action fields, from to_schedule up to (not including) the scheduler pointer */
+      sim_register_manager((char*)m + offsetof(fiber_manager_t, to_schedule), offsetof(fiber_manager_t, scheduler) - offsetof(fiber_manager_t, to_schedule));
+    }
+  }
   if (!m && sim_active && !fiber_mode) {
     static __thread fiber_manager_t dummy;
     return &dummy;
